@@ -93,6 +93,7 @@ var maxUnsignedValues = [...]uint64{
 	uint64(^uint16(0)),
 	uint64(^uint32(0)),
 	^uint64(0),
+	uint64(^uintptr(0)),
 }
 
 var maxBigUnsignedValues = [...]*big.Int{
@@ -101,6 +102,7 @@ var maxBigUnsignedValues = [...]*big.Int{
 	big.NewInt(1<<16 - 1),
 	big.NewInt(1<<32 - 1),
 	new(big.Int).SetUint64(1<<64 - 1),
+	new(big.Int).SetUint64(uint64(^uintptr(0))),
 }
 
 // maxUnsigned returns the maximum value, as uint64, for an unsigned integer
